@@ -164,11 +164,11 @@ func Set(ms *yang.Modules, errs []error, pos bool) string {
 	return b.String()
 }
 
-// idName names an identity by the file that defines it, not by its prefix: two modules may
+// idName names an identity by the module (name and revision) that defines it, not by its prefix: two modules may
 // declare the same prefix, and then prefix:name does not tell their identities apart.
 func idName(v *yang.Identity) string {
 	if r := yang.RootNode(v); r != nil {
-		return r.Name + "/" + v.PrefixedName()
+		return r.FullName() + "/" + v.PrefixedName()
 	}
 	return "?/" + v.PrefixedName()
 }
